@@ -7,13 +7,14 @@
 (* the harness.                                                                   *)
 EXTENDS Domains, TLC, Json
 
+CONSTANT Deltas
 VARIABLES t, delta, mode
 vars == <<t, delta, mode>>
 
 FrTypes == TypedTypes \cup {10, 99}
 
 Init == /\ t \in FrTypes
-        /\ \/ delta \in {-2, -1, 1, 2, 7} /\ mode \in {"len-only", "resized"}
+        /\ \/ delta \in Deltas /\ mode \in {"len-only", "resized"}
            \/ delta = 0 /\ mode \in {"count+1", "count-1", "exact"}
 Next == UNCHANGED vars
 Spec == Init /\ [][Next]_vars
